@@ -50,6 +50,9 @@ struct K8s {
     hold_lists: bool,
     held_lists: u64,
     release_lists: Arc<tokio::sync::Notify>,
+    /// changes that happen while the next streamed initial list is on its way
+    during_initial: Vec<(String, String)>,
+    streamed_lists: u64,
 }
 
 impl K8s {
@@ -130,7 +133,24 @@ async fn serve(state: Arc<Mutex<K8s>>) -> SocketAddr {
                             st.watches += 1;
                             // like the real API server: first everything that happened after the requested version
                             let from: Option<u64> = target.split(['?', '&']).find_map(|kv| kv.strip_prefix("resourceVersion=")).and_then(|v| v.parse().ok());
-                            if let Some(from) = from {
+                            if target.contains("sendInitialEvents=true") {
+                                // a streamed initial list: every object as ADDED, what changes meanwhile as ordinary
+                                // events, then the bookmark that ends the initial events
+                                st.streamed_lists += 1;
+                                for obj in st.objects.values() {
+                                    let _ = tx.send(WatchMsg::Line(json!({"type": "ADDED", "object": obj}).to_string()));
+                                }
+                                let changes: Vec<(String, String)> = st.during_initial.drain(..).collect();
+                                let seen = st.log.len();
+                                for (name, shape) in changes {
+                                    if shape == "deleted" { st.delete(&name) } else { st.apply(&name, game_server(&name, &shape)) }
+                                }
+                                for (_, line) in st.log[seen..].iter() {
+                                    let _ = tx.send(WatchMsg::Line(line.clone()));
+                                }
+                                let rv = st.rv;
+                                let _ = tx.send(WatchMsg::Line(json!({"type": "BOOKMARK", "object": {"apiVersion": "agones.dev/v1", "kind": "GameServer", "metadata": {"resourceVersion": rv.to_string(), "annotations": {"k8s.io/initial-events-end": "true"}}}}).to_string()));
+                            } else if let Some(from) = from {
                                 for (rv, line) in st.log.iter().filter(|(rv, _)| *rv > from) {
                                     let _ = rv;
                                     let _ = tx.send(WatchMsg::Line(line.clone()));
@@ -360,6 +380,13 @@ pub struct Spec {
     /// the adapter lists in pages of two objects
     #[serde(default)]
     paged: bool,
+    /// the adapter is configured to receive its initial list as a stream of watch events (sendInitialEvents)
+    #[serde(default)]
+    streaming: bool,
+    /// while an initial list is being streamed: these objects change (name, shape | "deleted") after every object
+    /// was announced and before the end-of-initial-events bookmark (first streamed list only)
+    #[serde(default)]
+    during_initial: Vec<(String, String)>,
 }
 
 static KUBECONFIG_LOCK: Mutex<()> = Mutex::new(());
@@ -405,6 +432,7 @@ fn run_history(spec: &Spec, counters: &(AtomicU64, AtomicU64)) -> Vec<(String, S
             for (n, s) in &spec.initial {
                 st.apply(n, game_server(n, s));
             }
+            st.during_initial = spec.during_initial.clone();
         }
         let addr = serve(state.clone()).await;
         // the kube client reads KUBECONFIG when it is created: serialise that step across threads
@@ -414,9 +442,9 @@ fn run_history(spec: &Spec, counters: &(AtomicU64, AtomicU64)) -> Vec<(String, S
             let cfg = format!("apiVersion: v1\nkind: Config\nclusters:\n- name: mock\n  cluster:\n    server: http://{addr}\ncontexts:\n- name: mock\n  context:\n    cluster: mock\n    user: mock\n    namespace: default\ncurrent-context: mock\nusers:\n- name: mock\n  user: {{}}\n");
             std::fs::write(&path, cfg).expect("kubeconfig");
             unsafe { std::env::set_var("KUBECONFIG", &path) };
-            let wc = if spec.paged { WatchConfig::default().page_size(2) } else { WatchConfig::default() };
+            let wc = if spec.streaming { WatchConfig::default().streaming_lists() } else if spec.paged { WatchConfig::default().page_size(2) } else { WatchConfig::default() };
             // unpaged histories alternate between the two ways of building the adapter
-            let via_config = !spec.paged && spec.history.len() % 2 == 1;
+            let via_config = !spec.paged && !spec.streaming && spec.history.len() % 2 == 1;
             let a = if via_config {
                 passage::adapter::discovery::DynDiscoveryAdapter::from_config(passage::config::DiscoveryAdapter::Agones(passage::config::AgonesDiscovery { namespace: None, label_selector: None, field_selector: None }))
                     .await
@@ -709,7 +737,7 @@ pub fn run(cli: Cli) -> ! {
     for init in &initials {
         let (depth, gone_depth) = if thorough { (3, 0) } else { (2, 0) };
         for h in histories(init, depth, gone_depth) {
-            specs.push(Spec { initial: init.clone(), history: h, paged: false });
+            specs.push(Spec { initial: init.clone(), history: h, paged: false, streaming: false, during_initial: vec![] });
         }
     }
     if thorough {
@@ -717,13 +745,13 @@ pub fn run(cli: Cli) -> ! {
         for init in &initials {
             for h in histories(init, 2, 2) {
                 if h.iter().any(|e| matches!(e, Ev::Gone | Ev::GoneAndDelete { .. } | Ev::GoneAndApply { .. })) {
-                    specs.push(Spec { initial: init.clone(), history: h, paged: false });
+                    specs.push(Spec { initial: init.clone(), history: h, paged: false, streaming: false, during_initial: vec![] });
                 }
             }
         }
         // depth 4 from the richest initial state, without 410 (each costs the watcher's error backoff)
         for h in histories(&initials[2], 4, 0) {
-            specs.push(Spec { initial: initials[2].clone(), history: h, paged: false });
+            specs.push(Spec { initial: initials[2].clone(), history: h, paged: false, streaming: false, during_initial: vec![] });
         }
     } else {
         // quick: selected depth-3 histories around deletion, re-list and unconvertible updates
@@ -747,7 +775,7 @@ pub fn run(cli: Cli) -> ! {
             vec![a("ready"), Ev::GoneAndApply { name: "a".into(), shape: "ready-lean".into() }, a("ready")],
             vec![a("ready-moved"), Ev::CloseWatch, a("ready-lean")],
         ] {
-            specs.push(Spec { initial: initials[1].clone(), history: h, paged: false });
+            specs.push(Spec { initial: initials[1].clone(), history: h, paged: false, streaming: false, during_initial: vec![] });
         }
     }
     // a watch that fails on the server side, alone and in the same write as the event before it
@@ -765,11 +793,11 @@ pub fn run(cli: Cli) -> ! {
             Ev::WatchErrorSlowLists { name: "b".into(), shape: "allocated".into() },
         ];
         for f in &firsts {
-            specs.push(Spec { initial: two.clone(), history: vec![f.clone()], paged: false });
+            specs.push(Spec { initial: two.clone(), history: vec![f.clone()], paged: false, streaming: false, during_initial: vec![] });
             if thorough {
                 for then in [a("ready"), Ev::Delete { name: "b".into() }, Ev::Bookmark, Ev::CloseWatch] {
-                    specs.push(Spec { initial: two.clone(), history: vec![f.clone(), then.clone()], paged: false });
-                    specs.push(Spec { initial: two.clone(), history: vec![then, f.clone()], paged: false });
+                    specs.push(Spec { initial: two.clone(), history: vec![f.clone(), then.clone()], paged: false, streaming: false, during_initial: vec![] });
+                    specs.push(Spec { initial: two.clone(), history: vec![then, f.clone()], paged: false, streaming: false, during_initial: vec![] });
                 }
             }
         }
@@ -779,16 +807,26 @@ pub fn run(cli: Cli) -> ! {
     let five: Vec<(String, String)> = ["a", "b", "c", "d", "e"].iter().map(|n| (n.to_string(), "ready".to_string())).collect();
     for del in [vec!["a"], vec!["a", "b"], vec!["b"], vec!["c"], vec!["a", "e"]] {
         let delete: Vec<String> = del.iter().map(|s| s.to_string()).collect();
-        specs.push(Spec { initial: five.clone(), history: vec![Ev::GoneRelistInterrupted { delete: delete.clone() }], paged: true });
-        specs.push(Spec { initial: five.clone(), history: vec![Ev::Apply { name: "c".into(), shape: "shutdown".into() }, Ev::GoneRelistInterrupted { delete: delete.clone() }, Ev::Delete { name: "d".into() }], paged: true });
+        specs.push(Spec { initial: five.clone(), history: vec![Ev::GoneRelistInterrupted { delete: delete.clone() }], paged: true, streaming: false, during_initial: vec![] });
+        specs.push(Spec { initial: five.clone(), history: vec![Ev::Apply { name: "c".into(), shape: "shutdown".into() }, Ev::GoneRelistInterrupted { delete: delete.clone() }, Ev::Delete { name: "d".into() }], paged: true, streaming: false, during_initial: vec![] });
+    }
+    // the initial list arrives as a stream of events (a watcher configured with streaming_lists()), and objects
+    // change while it is on its way (ADDED / MODIFIED only: the watcher library itself discards a DELETED it
+    // receives before the end-of-initial-events bookmark, "Kubernetes claims these events are impossible")
+    for during in [vec![], vec![("a", "allocated")], vec![("b", "ready-no-ports")], vec![("a", "shutdown"), ("c", "ready")], vec![("a", "ready-moved"), ("a", "ready-lean")]] {
+        let during_initial: Vec<(String, String)> = during.iter().map(|(n, s)| (n.to_string(), s.to_string())).collect();
+        let two: Vec<(String, String)> = vec![("a".into(), "ready".into()), ("b".into(), "allocated".into())];
+        for history in [vec![], vec![Ev::Apply { name: "b".into(), shape: "ready-moved".into() }], vec![Ev::Gone, Ev::Delete { name: "a".into() }]] {
+            specs.push(Spec { initial: two.clone(), history, paged: false, streaming: true, during_initial: during_initial.clone() });
+        }
     }
     // a re-list that is observed while it is incomplete
-    specs.push(Spec { initial: five.clone(), history: vec![Ev::GoneRelistHeld], paged: true });
-    specs.push(Spec { initial: five.clone(), history: vec![Ev::Apply { name: "c".into(), shape: "shutdown".into() }, Ev::GoneRelistHeld, Ev::Delete { name: "d".into() }], paged: true });
-    specs.push(Spec { initial: five.clone(), history: vec![Ev::Apply { name: "a".into(), shape: "ready-moved".into() }, Ev::GoneRelistHeld, Ev::GoneRelistHeld], paged: true });
+    specs.push(Spec { initial: five.clone(), history: vec![Ev::GoneRelistHeld], paged: true, streaming: false, during_initial: vec![] });
+    specs.push(Spec { initial: five.clone(), history: vec![Ev::Apply { name: "c".into(), shape: "shutdown".into() }, Ev::GoneRelistHeld, Ev::Delete { name: "d".into() }], paged: true, streaming: false, during_initial: vec![] });
+    specs.push(Spec { initial: five.clone(), history: vec![Ev::Apply { name: "a".into(), shape: "ready-moved".into() }, Ev::GoneRelistHeld, Ev::GoneRelistHeld], paged: true, streaming: false, during_initial: vec![] });
     for init in &initials {
         for h in histories(init, if thorough { 2 } else { 1 }, if thorough { 2 } else { 1 }) {
-            specs.push(Spec { initial: init.clone(), history: h, paged: true });
+            specs.push(Spec { initial: init.clone(), history: h, paged: true, streaming: false, during_initial: vec![] });
         }
     }
     let rot = common::seed() as usize % specs.len();
@@ -812,7 +850,7 @@ pub fn run(cli: Cli) -> ! {
     rep.set("exhaustive", json!(true));
     rep.set("rule", json!("all maximal histories up to the depth over 20 events (ADDED/MODIFIED of two game servers in 6 shapes, DELETED, BOOKMARK, watch closed cleanly, 410 Gone followed by a re-list, 410 Gone with an object deleted / changed while the watch is down, 410 Gone whose paginated re-list is cut off after the first page while listed objects disappear, 410 Gone whose paginated re-list is held between two pages while the offer is read), plus a server-side watch failure (ERROR 500) alone and written together with the DELETED / ADDED / MODIFIED before it, pruned to events enabled in the mock's current truth, from 3 initial LIST contents; after every event a marker object is toggled and awaited (barrier) and the snapshot compared with the reference map. quick: depth 2 without 410 plus 10 selected histories with deletions, re-lists and changes during a watch outage; thorough: depth 3 and depth 4 without 410, every depth-2 history with one 410, paginated depth-2 histories."));
     rep.sample(json!({"spec": specs[0]}));
-    rep.sample(json!({"spec": Spec { initial: vec![("a".into(), "ready".into())], history: vec![Ev::Delete { name: "a".into() }], paged: false }, "expect": "'a' is no longer offered"}));
+    rep.sample(json!({"spec": Spec { initial: vec![("a".into(), "ready".into())], history: vec![Ev::Delete { name: "a".into() }], paged: false, streaming: false, during_initial: vec![] }, "expect": "'a' is no longer offered"}));
     rep.assume("the Kubernetes API is a hand-written HTTP/1.1 mock (LIST + chunked WATCH); the kube client, watcher and backoff run unmodified; OS timing only enters through 5-8 s deadlines on barriers");
     rep.assume("events are applied in stream order, so the visibility of the toggled marker implies that every earlier event has been applied");
     rep.finish()
